@@ -64,7 +64,7 @@ claimed = {
    text=("Contract-based deductive proof of the three mechanisms the property rests on (core; which goroutine reaches teardown and when is a schedule question outside any contract). (1) Session.Init and Session.Update establish the will invariant: whenever the stored CONNECT "
          "has its will flag set, the session's will message is a PUBLISH whose QoS, retain flag, payload and (valid) topic are exactly the will fields of that stored CONNECT - for fresh and resumed sessions alike (Update rebuilds or drops the will; the defect that it kept the previous one was fixed). "
          "(2) processIncoming clears the stored CONNECT's will flag on DISCONNECT and returns errDisconnect, and changes the flag for no other packet type. (3) service.stop hands the will on (onPublish) exactly once iff it is the first call, the service is a server and the will flag is still set, and never otherwise; "
-         "on the first call it also deletes a clean session from the store. Not covered: that every abnormal end reaches stop, and that buffered packets (a final DISCONNECT) are processed before end-of-stream is acted on (peekMessageSize is not under contract; seeded change C09-2 is missed for that reason)."),
+         "on the first call it also deletes a clean session from the store. (4) peekMessageSize reports end-of-stream only when the ring buffer itself reported it, so packets still buffered (a final DISCONNECT) are never skipped. Not covered: that every abnormal end reaches stop."),
    design='DESIGN.md §4 C09', technique='data invariant + ghost-log contracts; VCs over go/ssa discharged by z3/cvc5 (govc)'),
  'C10': dict(level='proof',
    text=("Contract-based deductive proof of the per-call mechanism (core; the composition over connect/disconnect histories is argued, not machine-checked). Against a ghost view of the session store (client identifier -> session): "
@@ -97,6 +97,12 @@ claimed = {
          "ConnectMessage.Decode maps an unsupported protocol level to code 1 and an unacceptable client identifier to code 2 and produces no other code (C03/C04 contracts, part of this check). "
          "Assumed: reading the CONNECT from the socket (getConnectMessage), writing the CONNACK bytes (writeMessage), the identifier syntax check (a regular expression) and service.start are trusted contracts pinned to their current bodies; start is assumed not to fail."),
    design='DESIGN.md §4 C11', technique='ghost-log contracts over go/ssa incl. the deferred closure, z3/cvc5 (govc)'),
+ 'C05': dict(level='proof',
+   text=("Contract-based deductive proof of the per-connection input paths (core; that a teardown of one connection does not disturb others is a whole-system statement not covered). For arbitrary bytes from the peer: getMessageBuffer (the unauthenticated read of the first packet) and getConnectMessage, "
+         "peekMessageSize and peekMessage (every later packet) and every Decode of all 14 packet types never index or slice out of range, never convert out of range and terminate (zero-annotation safety obligations plus loop invariants); the only allocation whose size the peer chooses is bounded by the largest MQTT packet "
+         "(a defect found here - a fifth length byte let an unauthenticated peer request a 32 GiB buffer - was fixed); announced packet sizes are within 2..268435460; oversized requests to the ring fail instead of blocking (C15). "
+         "Panics elsewhere are confined by the recover of the connection's own goroutines (not verified). Assumed: net.Conn.Read returns 0..len bytes."),
+   design='DESIGN.md §4 C05', technique='zero-annotation safety VCs + allocation bound + loop invariants over go/ssa, z3/cvc5 (govc)'),
  'C04': dict(level='proof',
    text=("Contract-based deductive proof: every index, slice (also against len, not only cap: 'strictslice'), nil, conversion and overflow obligation in every Decode path is generated with no annotation and discharged; "
          "contracts add 0<=n<=len(src), every returned field lies within src[:n], loop variants (termination), and acceptance of every well-formed packet (for SUBSCRIBE/UNSUBSCRIBE against a caller-chosen ghost entry chain). Unbounded in input length and topic count."),
